@@ -14,6 +14,7 @@ import (
 )
 
 type FuncResult struct {
+	Obs        map[string]string // replay observables: name -> SMT term over the entry state
 	AxLo, AxHi int // lines [AxLo,AxHi) of Facts are the global axioms of the spec files
 	Name     string
 	Obls     []*Obligation
@@ -85,6 +86,7 @@ func (e *Engine) verifyFunc(name string) (*FuncResult, error) {
 		fr.vals[fv] = binds[i]
 	}
 	fr.entry = st.clone()
+	obs := e.evalObservables(fr, st)
 	if fr.contract != nil {
 		for _, rq := range fr.contract.Requires {
 			v, err := fr.eval(st, rq.Expr, nil)
@@ -114,7 +116,7 @@ func (e *Engine) verifyFunc(name string) (*FuncResult, error) {
 			}
 		}
 	}
-	res := &FuncResult{AxLo: axLo, AxHi: axHi, Name: name, Obls: r.obls, GenTime: time.Since(t0).Seconds(), Facts: r.facts.lines, RunNames: r.names, Declared: r.facts.declared}
+	res := &FuncResult{Obs: obs, AxLo: axLo, AxHi: axHi, Name: name, Obls: r.obls, GenTime: time.Since(t0).Seconds(), Facts: r.facts.lines, RunNames: r.names, Declared: r.facts.declared}
 	res.Notes = sortedKeys(r.notes)
 	res.Assumes = sortedKeys(r.assumes)
 	res.Specs = sortedKeys(r.usedSpecs)
